@@ -55,6 +55,7 @@ class Repo:
         self.substituted_locals = []
         self._substitute_block_locals()
         self._split_ifexp_statements()
+        self._split_parallel_assignments()
         self.seqnorm_abandoned = []
         from .seqnorm import normalise_builders
         self.seqnorm = normalise_builders(self)
@@ -507,6 +508,87 @@ class Repo:
                 if isinstance(n, ast.FunctionDef) and any(isinstance(x, ast.Yield) for x in ast.walk(n)):
                     yield_locals(n, rel)
 
+    def _split_parallel_assignments(self):
+        """NORM: `a, b = (x, y)` with side-effect-free x, y that do not read a or b is `a = x; b = y`"""
+        import copy
+
+        def pure(e):
+            return not any(isinstance(x, (ast.Call, ast.Yield, ast.YieldFrom, ast.Await, ast.NamedExpr, ast.Lambda, ast.Starred))
+                           for x in ast.walk(e))
+
+        def rewrite(stmts):
+            out = []
+            for s_ in stmts:
+                for fld in ("body", "orelse", "finalbody"):
+                    if isinstance(getattr(s_, fld, None), list) and not isinstance(s_, ast.ClassDef):
+                        setattr(s_, fld, rewrite(getattr(s_, fld)))
+                if isinstance(s_, ast.Try):
+                    for h in s_.handlers:
+                        h.body = rewrite(h.body)
+                if isinstance(s_, ast.Assign) and len(s_.targets) == 1 and isinstance(s_.targets[0], ast.Tuple) \
+                        and isinstance(s_.value, ast.Tuple) and len(s_.targets[0].elts) == len(s_.value.elts) \
+                        and all(isinstance(t, ast.Name) for t in s_.targets[0].elts) and all(pure(v) for v in s_.value.elts):
+                    tnames = {t.id for t in s_.targets[0].elts}
+                    reads = {x.id for v in s_.value.elts for x in ast.walk(v) if isinstance(x, ast.Name)}
+                    if not (tnames & reads) and len(tnames) == len(s_.targets[0].elts):
+                        for t, v in zip(s_.targets[0].elts, s_.value.elts):
+                            new = ast.Assign([ast.Name(t.id, ast.Store())], v)
+                            ast.copy_location(new, s_)
+                            ast.fix_missing_locations(new)
+                            out.append(new)
+                        continue
+                out.append(s_)
+            return out
+        def drop_copies(F):
+            """`x = y` (both plain locals with a single store in F, y stored earlier in the same statement list, every read
+            of x textually after its store): x is another name for y - its reads are replaced, the copy is dropped"""
+            inner = set()
+            for n in ast.walk(F):
+                if isinstance(n, (ast.FunctionDef, ast.Lambda)) and n is not F:
+                    inner |= {x.id for x in ast.walk(n) if isinstance(x, ast.Name)}
+                    inner |= {nm for x in ast.walk(n) if isinstance(x, (ast.Nonlocal, ast.Global)) for nm in x.names}
+            order = {}
+            # ast.walk is breadth-first: use positions instead
+            def pos(n):
+                return (getattr(n, "lineno", 0), getattr(n, "col_offset", 0))
+            stores, loads = {}, {}
+            for n in ast.walk(F):
+                if isinstance(n, ast.Name):
+                    (stores if isinstance(n.ctx, (ast.Store, ast.Del)) else loads).setdefault(n.id, []).append(n)
+            params = {a.arg for a in F.args.args + F.args.kwonlyargs} | {a.arg for a in (F.args.vararg, F.args.kwarg) if a}
+
+            def scan(stmts):
+                for i, s_ in enumerate(stmts):
+                    for fld in ("body", "orelse", "finalbody"):
+                        if isinstance(getattr(s_, fld, None), list):
+                            scan(getattr(s_, fld))
+                    if isinstance(s_, ast.Assign) and len(s_.targets) == 1 and isinstance(s_.targets[0], ast.Name) \
+                            and isinstance(s_.value, ast.Name):
+                        x, y = s_.targets[0].id, s_.value.id
+                        if x == y or x in params or y in params or len(stores.get(x, [])) != 1 or len(stores.get(y, [])) != 1 \
+                                or x in inner or y in inner:
+                            continue
+                        ydef = [j for j, t in enumerate(stmts[:i]) if isinstance(t, ast.Assign) and len(t.targets) == 1
+                                and isinstance(t.targets[0], ast.Name) and t.targets[0].id == y]
+                        if not ydef:
+                            continue
+                        # the copy was made by inlining: nothing but plain assignments / simple ifs between the two stores
+                        if not all(isinstance(t, (ast.Assign, ast.If, ast.Pass)) for t in stmts[ydef[0]:i]):
+                            continue
+                        if any(pos(l_) < pos(s_) for l_ in loads.get(x, [])):
+                            continue
+                        for l_ in loads.get(x, []):
+                            l_.id = y
+                        loads.setdefault(y, []).extend(loads.pop(x, []))
+                        stmts[i] = ast.copy_location(ast.Pass(), s_)
+            scan(F.body)
+        for rel, m in self.modules.items():
+            for n in ast.walk(m.tree):
+                if isinstance(n, ast.FunctionDef):
+                    n.body = rewrite(n.body)
+                    if any(f == n.name for r_, f, h in self.inlined_helpers if r_ == rel):
+                        drop_copies(n)
+
     def _split_ifexp_statements(self, prefix="hrevolve_sequences/"):
         """NORM (builders only): an expression statement that contains `A if C else B` with a side-effect-free C becomes
         `if C: <statement with A> else: <statement with B>`"""
@@ -738,6 +820,18 @@ class Repo:
                 for fld in ("body", "orelse", "finalbody"):
                     if hasattr(s_, fld) and isinstance(getattr(s_, fld), list) and not isinstance(s_, (ast.FunctionDef, ast.ClassDef)):
                         setattr(s_, fld, rewrite(getattr(s_, fld), fname, rel, depth))
+                # builders: `if C: x = A else: x = B` is the statement form of `x = A if C else B`
+                if rel.startswith("hrevolve_sequences/") and isinstance(s_, ast.If) and len(s_.body) == 1 and len(s_.orelse) == 1 \
+                        and all(isinstance(b, ast.Assign) and len(b.targets) == 1 and isinstance(b.targets[0], ast.Name)
+                                for b in (s_.body[0], s_.orelse[0])) \
+                        and s_.body[0].targets[0].id == s_.orelse[0].targets[0].id \
+                        and simple(s_.body[0].value) and simple(s_.orelse[0].value) and simple(s_.test if not isinstance(s_.test, ast.Compare) else s_.test.left) \
+                        and not any(isinstance(x, ast.Call) for x in ast.walk(s_.test)):
+                    new = ast.Assign([ast.Name(s_.body[0].targets[0].id, ast.Store())],
+                                     ast.IfExp(s_.test, s_.body[0].value, s_.orelse[0].value))
+                    ast.copy_location(new, s_)
+                    ast.fix_missing_locations(new)
+                    stmts[i] = s_ = new
                 if isinstance(s_, ast.Assign) and len(s_.targets) == 1 and isinstance(s_.targets[0], ast.Name) \
                         and isinstance(s_.value, ast.IfExp) and simple(s_.value.body) and simple(s_.value.orelse) and depth < 3:
                     x = s_.targets[0].id
